@@ -863,4 +863,242 @@ theorem normalForm_runes (T : Table) (f0 : FSys) (ls : List FLabel) (r : FSys ×
   simp only [ParserRunSchedGroup.pend, List.nil_append]
   rw [closeNorm_runes, expNorm_runes]
 
+/-! ### the same with one observed `Close()` -/
+
+/-- Along the run: every `Close()` is issued while the main goroutine stands in front of the `select`. -/
+def closeAt (T : Table) : FSys → List FLabel → Bool
+  | _, [] => true
+  | f, l :: ls =>
+    match FSys.step T f l with
+    | none => true
+    | some (f', _) => (if l = .closeSig then decide (f.mpc = .atSelect) else true) && closeAt T f' ls
+
+theorem not_finished (T : Table) (f f' : FSys) (l : FLabel) (o : List Seq) (hs : FSys.step T f l = some (f', o))
+    (hc : l = .closeSig → f.mpc = .atSelect) : finished f = false := by
+  cases h : finished f with
+  | false => rfl
+  | true =>
+    by_cases hl : l = .closeSig
+    · have := hc hl
+      simp only [finished, Bool.and_eq_true, decide_eq_true_eq] at h
+      rw [h.1.1] at this; cases this
+    · rw [finished_stuck T f h l hl] at hs; cases hs
+
+theorem mem_single_mc (T : Table) (f f' : FSys) (ins : List Nat) (mc : Bool) (l : FLabel) (o : List Seq)
+    (hnr : isRead l = false) (hlc : l = .closeSig → mc = true ∧ f.mpc = .atSelect) (hs : FSys.step T f l = some (f', o))
+    (hx : (sstep T f (sl l)).isSome = true) (hexp : l = .expire → ∃ b, f.mpc = .stepped b) :
+    sl l ∈ enabled T f ins mc := by
+  cases l with
+  | readRet i => cases hnr
+  | closeSig =>
+    obtain ⟨h1, h2⟩ := hlc rfl
+    simp [enabled, sl, h1, h2]
+  | main =>
+    have hpc : f.mpc ≠ .inRead := by
+      intro h; simp [FSys.step, mainStep, h] at hs
+    simp only [sl] at hx ⊢
+    simp only [enabled, List.mem_append]
+    right
+    simp [hpc, hx]
+  | expire =>
+    obtain ⟨b, hb⟩ := hexp rfl
+    have ha : f.armed.isSome = true := by
+      cases h : f.armed with
+      | none => simp [FSys.step, h] at hs
+      | some g => rfl
+    simp only [enabled, List.mem_append, sl]
+    left; left; right
+    simp [hb, ha]
+  | cb k =>
+    have hk : k < f.cbs.length := by
+      cases h : f.cbs[k]? with
+      | none => simp [FSys.step, cbStep, h] at hs
+      | some c => exact lt_of_getElem? h
+    simp only [sl] at hx ⊢
+    simp only [enabled, List.mem_append, List.mem_filterMap, List.mem_range]
+    exact Or.inl (Or.inr ⟨k, hk, by simp [hx]⟩)
+
+theorem mem_read_mc (T : Table) (f : FSys) (ins : List Nat) (mc : Bool) (i : Inp) (hpc : f.mpc = .inRead)
+    (hi : i = (match ins with | r :: _ => Inp.rune r | [] => Inp.eof)) : SLabel.read i ∈ enabled T f ins mc := by
+  subst hi
+  simp only [enabled, List.mem_append]
+  right
+  cases ins <;> simp [hpc]
+
+theorem mem_cb_mc (T : Table) (f : FSys) (ins : List Nat) (mc : Bool) (k : Nat) (hk : k < f.cbs.length)
+    (hx : (sstep T f (.cb k)).isSome = true) : SLabel.cb k ∈ enabled T f ins mc := by
+  simp only [enabled, List.mem_append, List.mem_filterMap, List.mem_range]
+  exact Or.inl (Or.inr ⟨k, hk, by simp [hx]⟩)
+
+theorem mc_after (l : FLabel) (ls : List FLabel) (hcnt : (l :: ls).count .closeSig ≤ 1) :
+    mcAfter ((l :: ls).contains .closeSig) (sl l) = ls.contains .closeSig := by
+  cases l with
+  | closeSig =>
+    simp only [sl, mcAfter]
+    simp only [List.count_cons_self] at hcnt
+    have h0 : ls.count .closeSig = 0 := by omega
+    have := List.count_eq_zero.mp h0
+    simpa using this
+  | _ => simp [sl, mcAfter]
+
+theorem reduced_core_mc (T : Table) : ∀ (ls : List FLabel) (f : FSys) (fl : Bool) (r : FSys × List Seq),
+    FSys.run T f ls = some r → finished r.1 = true → (closeAt T f ls = true ∧ ls.count .closeSig ≤ 1) → readAdj ls = true →
+    cbAdj T f ls = true → expNormal T fl f ls = true → (fl = true → ∃ b, f.mpc = .stepped b) →
+    (∀ i, f.mpc ≠ .readDone i) → Reduced T f (runes ls) (ls.contains .closeSig) (toS T false f ls)
+  | [], f, _, r, hr, hfin, _, _, _, _, _, _ => by
+    simp only [FSys.run, Option.some.injEq] at hr
+    rw [← hr] at hfin
+    exact Reduced.done f _ _ hfin
+  | [l], f, fl, r, hr, hfin, ⟨hcl, hcnt⟩, hra, hca, hex, hfl, hnd => by
+    have hrs : (FSys.run T f [l]).isSome = true := by rw [hr]; rfl
+    obtain ⟨f', o, hs, _⟩ := isSome_cons T f l [] hrs
+    have hlc : l = .closeSig → f.mpc = .atSelect := by
+      intro h; subst h; simpa [closeAt, hs] using hcl
+    have hnr : isRead l = false := by
+      cases h : isRead l with
+      | false => rfl
+      | true => simp [readAdj, h, headIsMain] at hra
+    have hno : openK f l = none := by
+      cases h : openK f l with
+      | none => rfl
+      | some k => simp [cbAdj, hs, h] at hca
+    have hx := sstep_single T f l hnr hno (by rw [hs]; rfl) hnd
+    have hrun : FSys.run T f [l] = some (f', o ++ []) := by simp only [FSys.run, hs]
+    rw [hrun] at hr
+    simp only [Option.some.injEq] at hr
+    rw [← hr] at hfin
+    have hnf := not_finished T f f' l o hs hlc
+    simp only [expNormal, hs, Bool.and_eq_true] at hex
+    have ht : toS T false f [l] = [sl l] := by simp [toS, hs]
+    rw [ht, runes_nonread l [] hnr]
+    refine Reduced.step f _ _ (sl l) f' (o ++ []) [] hnf
+      (mem_single_mc T f f' _ _ l o hnr (fun h => ⟨by rw [h]; simp, hlc h⟩) hs (by rw [hx, hrun]; rfl)
+        (fun he => hfl (by rw [if_pos he] at hex; exact hex.1)))
+      (by rw [hx, hrun]) ?_
+    exact Reduced.done f' _ _ hfin
+  | l :: l2 :: rest, f, fl, r, hr, hfin, ⟨hcl, hcnt⟩, hra, hca, hex, hfl, hnd => by
+    have hrs : (FSys.run T f (l :: l2 :: rest)).isSome = true := by rw [hr]; rfl
+    obtain ⟨f1, o1, hs1, hr1⟩ := isSome_cons T f l _ hrs
+    obtain ⟨f2, o2, hs2, hr2⟩ := isSome_cons T f1 l2 _ hr1
+    have hrun2 : FSys.run T f [l, l2] = some (f2, o1 ++ (o2 ++ [])) := by simp only [FSys.run, hs1, hs2]
+    have hrun1 : FSys.run T f [l] = some (f1, o1 ++ []) := by simp only [FSys.run, hs1]
+    have hcl0 := hcl
+    simp only [closeAt, hs1, hs2, Bool.and_eq_true] at hcl
+    have hlc : l = .closeSig → f.mpc = .atSelect := by
+      intro h; rw [if_pos h] at hcl; simpa using hcl.1
+    have hnf := not_finished T f f1 l o1 hs1 hlc
+    simp only [readAdj, Bool.and_eq_true] at hra
+    simp only [cbAdj, hs1, hs2, Bool.and_eq_true] at hca
+    simp only [expNormal, hs1, hs2, Bool.and_eq_true] at hex
+    by_cases hp : pairs f l = true
+    · have ht : toS T false f (l :: l2 :: rest) = sl l :: toS T false f2 rest := by simp only [toS, hs1, hs2, hp]
+      rw [ht]
+      -- the rest of the run, from `f2`
+      obtain ⟨r2, hrr2⟩ : ∃ r2, FSys.run T f2 rest = some r2 := by
+        cases h : FSys.run T f2 rest with
+        | none => rw [h] at hr2; cases hr2
+        | some x => exact ⟨x, rfl⟩
+      have hr' : r.1 = r2.1 := by
+        have e : FSys.run T f (l :: l2 :: rest) = FSys.run T f ([l, l2] ++ rest) := rfl
+        rw [e, VaxisModel.Props.C08Sched.run_append, hrun2] at hr
+        simp only [hrr2, Option.some.injEq] at hr
+        rw [← hr]
+      cases hrd : isRead l with
+      | true =>
+        cases l with
+        | readRet i =>
+          rw [hrd] at hra
+          simp only [if_true] at hra
+          have hl2 : l2 = .main := by cases l2 <;> first | rfl | simp [headIsMain] at hra
+          subst hl2
+          have hpc : f.mpc = .inRead := by
+            simp only [FSys.step] at hs1
+            split at hs1
+            · assumption
+            · cases hs1
+          have hf1 : f1 = { f with mpc := .readDone i } := by
+            simp only [FSys.step, hpc, if_true, Option.some.injEq, Prod.mk.injEq] at hs1; exact hs1.1.symm
+          have hf2 : f2.mpc = .stopped i := by
+            rw [hf1] at hs2
+            simp only [FSys.step, mainStep, Option.some.injEq, Prod.mk.injEq] at hs2
+            rw [← hs2.1]
+          have hia : isArming T f1 .main = false := by rw [hf1]; rfl
+          rw [hia] at hex
+          have hcnt' : rest.count .closeSig ≤ 1 := by simpa using hcnt
+          have hmc : (FLabel.readRet i :: FLabel.main :: rest).contains .closeSig = rest.contains .closeSig := by simp
+          rw [hmc]
+          have ih := reduced_core_mc T rest f2 false r2 hrr2 (by rw [← hr']; exact hfin) ⟨hcl.2.2, hcnt'⟩ hra.2.2 hca.2.2
+            hex.2.2 (fun h => by cases h) (fun j hj => by rw [hf2] at hj; cases hj)
+          have hx : sstep T f (.read i) = some (f2, o1 ++ (o2 ++ [])) := by rw [sstep_read, hrun2]
+          cases i with
+          | rune rr =>
+            refine Reduced.step f _ _ (.read (.rune rr)) f2 _ _ hnf (mem_read_mc T f _ _ _ hpc (by simp [runes])) hx ?_
+            simpa [insAfter, runes, mcAfter] using ih
+          | eof =>
+            have hre : runes rest = [] := no_reads_after_eof T rest f2 (by rw [hf2]; rfl) hr2
+            have hrl : runes (FLabel.readRet .eof :: .main :: rest) = [] := by simpa [runes] using hre
+            rw [hrl]
+            refine Reduced.step f _ _ (.read .eof) f2 _ _ hnf (mem_read_mc T f _ _ _ hpc rfl) hx ?_
+            simpa [insAfter, hre, mcAfter] using ih
+        | _ => cases hrd
+      | false =>
+        simp only [pairs, hrd, Bool.false_or] at hp
+        cases ho : openK f l with
+        | none => rw [ho] at hp; cases hp
+        | some k =>
+          obtain ⟨rfl, hop⟩ := openK_spec f l k ho
+          rw [ho] at hca
+          simp only [List.head?_cons, decide_eq_true_eq, Option.some.injEq] at hca
+          have hl2 : l2 = .cb k := hca.1
+          subst hl2
+          have hm1 : f1.mpc = f.mpc := cb_mpc f f1 k o1 (by simpa [FSys.step] using hs1)
+          have hm2 : f2.mpc = f1.mpc := cb_mpc f1 f2 k o2 (by simpa [FSys.step] using hs2)
+          have hia : isArming T f1 (.cb k) = false := rfl
+          rw [hia] at hex
+          have hcnt' : rest.count .closeSig ≤ 1 := by simpa using hcnt
+          have hmc : (FLabel.cb k :: FLabel.cb k :: rest).contains .closeSig = rest.contains .closeSig := by simp
+          rw [hmc]
+          have ih := reduced_core_mc T rest f2 false r2 hrr2 (by rw [← hr']; exact hfin) ⟨hcl.2.2, hcnt'⟩ hra.2.2 hca.2.2
+            hex.2.2 (fun h => by cases h) (fun j hj => by rw [hm2, hm1] at hj; exact hnd j hj)
+          have hx : sstep T f (.cb k) = some (f2, o1 ++ (o2 ++ [])) := by rw [sstep_cb_pair T f k hop, hrun2]
+          have hk : k < f.cbs.length := (opens_spec f k hop).elim fun g h => h.elim fun pc h => lt_of_getElem? h.1
+          refine Reduced.step f _ _ (.cb k) f2 _ _ hnf (mem_cb_mc T f _ _ k hk (by rw [hx]; rfl)) hx ?_
+          simpa [insAfter, runes, mcAfter] using ih
+    · have hp0 : pairs f l = false := by simpa using hp
+      have ht : toS T false f (l :: l2 :: rest) = sl l :: toS T false f1 (l2 :: rest) := by simp only [toS, hs1, hp0]
+      rw [ht]
+      simp only [pairs, Bool.or_eq_false_iff] at hp0
+      have hno : openK f l = none := by
+        cases h : openK f l with
+        | none => rfl
+        | some k => rw [h] at hp0; simp at hp0
+      obtain ⟨r1, hrr1⟩ : ∃ r1, FSys.run T f1 (l2 :: rest) = some r1 := by
+        cases h : FSys.run T f1 (l2 :: rest) with
+        | none => rw [h] at hr1; cases hr1
+        | some x => exact ⟨x, rfl⟩
+      have hr' : r.1 = r1.1 := by
+        rw [run_cons_some T f f1 l o1 _ hs1, hrr1] at hr
+        simp only [Option.map_some, Option.some.injEq] at hr
+        rw [← hr]
+      have hx := sstep_single T f l hp0.1 hno (by rw [hs1]; rfl) hnd
+      have hcnt' : (l2 :: rest).count .closeSig ≤ 1 := by
+        have := List.count_le_count_cons (a := FLabel.closeSig) (b := l) (l := l2 :: rest); omega
+      have ih := reduced_core_mc T (l2 :: rest) f1 (isArming T f l) r1 hrr1 (by rw [← hr']; exact hfin)
+        ⟨by simp only [closeAt, hs2, Bool.and_eq_true]; exact hcl.2, hcnt'⟩ (by simp only [readAdj, Bool.and_eq_true]; exact hra.2)
+        (by simp only [cbAdj, hs2, Bool.and_eq_true]; exact hca.2)
+        (by simp only [expNormal, hs2, Bool.and_eq_true]; exact hex.2)
+        (fun h => arming_stepped T f f1 l o1 h hs1) (not_readDone_step T f f1 l o1 hs1 hp0.1 hnd)
+      rw [runes_nonread l _ hp0.1]
+      refine Reduced.step f _ _ (sl l) f1 (o1 ++ []) _ hnf
+        (mem_single_mc T f f1 _ _ l o1 hp0.1 (fun h => ⟨by rw [h]; simp, hlc h⟩) hs1 (by rw [hx, hrun1]; rfl)
+          (fun he => hfl (by rw [if_pos he] at hex; exact hex.1)))
+        (by rw [hx, hrun1]) ?_
+      rw [mc_after l (l2 :: rest) hcnt]
+      have hia : insAfter (runes (l2 :: rest)) (sl l) = runes (l2 :: rest) := by
+        cases l with
+        | readRet i => cases hp0.1
+        | _ => rfl
+      rw [hia]; exact ih
+
+
 end VaxisModel.Lemmas.ParserRunSchedEnum
